@@ -8,13 +8,15 @@ CONSTANT FnTab <- Tabs
 CONSTANT AdminSet <- Adm1
 CONSTANT MaxSetFn = 1
 CONSTANT MaxRuns = 2
-CONSTANT MaxWrites = 3
+CONSTANT MaxWrites = 2
 CONSTANT Dev <- Ideal
 SPECIFICATION Spec
 VIEW view
 INVARIANT PerDocFresh
 INVARIANT PrincipalsFresh
+INVARIANT PrincipalsFreshAll
 INVARIANT FromScratch
+INVARIANT FromScratchAll
 INVARIANT Idempotent
 INVARIANT CacheSound
 INVARIANT NoSeqWithoutRegen
